@@ -5,7 +5,6 @@ package main
 import (
 	"fmt"
 	"go/types"
-	"sort"
 	"strings"
 )
 
@@ -335,7 +334,9 @@ func (w *World) StrLit(s string) *Term {
 	if t, ok := w.strLits[s]; ok {
 		return t
 	}
-	t := Const(fmt.Sprintf("strlit_%d", len(w.strLits)), SStr)
+	// strings are modelled as an uninterpreted domain represented by Int (so that array defaults are
+	// values for every solver); literal k is the k-th distinct string constant met so far
+	t := mk(fmt.Sprint(len(w.strLits)), SStr)
 	w.strLits[s] = t
 	w.strOrder = append(w.strOrder, s)
 	return t
@@ -405,7 +406,7 @@ func NNKids(n *Term) *Term {
 func MkNode(t, v, kids, n *Term) *Term { return App("mkNode", SNode, t, v, kids, n) }
 
 const preludeText = `
-(declare-sort Str 0)
+(define-sort Str () Int)
 (define-sort F64 () (_ FloatingPoint 11 53))
 (declare-datatypes ((Unit 0)) (((unit))))
 (declare-datatypes ((Val 0) (Node 0)) (
@@ -426,8 +427,6 @@ const preludeText = `
 (declare-fun gs.cat (Str Str) Str)
 (declare-fun gs.lt (Str Str) Bool)
 (declare-fun gs.fromRune ((_ BitVec 32)) Str)
-(declare-const gs.empty Str)
-(assert (= (gs.len gs.empty) 0))
 `
 
 // Prelude emits the fixed prelude plus discovered datatypes.
@@ -442,28 +441,14 @@ func (w *World) Prelude() string {
 	if len(w.strOrder) > 0 {
 		for _, s := range w.strOrder {
 			t := w.strLits[s]
-			fmt.Fprintf(&sb, "(declare-const %s Str) ; %q\n", t.Head, s)
+			fmt.Fprintf(&sb, "; string literal %s = %q\n", t.Head, s)
 			fmt.Fprintf(&sb, "(assert (= (gs.len %s) %d))\n", t.Head, len(s))
 			if len(s) <= 4 {
 				for i := 0; i < len(s); i++ {
 					fmt.Fprintf(&sb, "(assert (= (gs.at %s %d) (_ bv%d 8)))\n", t.Head, i, s[i])
 				}
 			}
-			if s == "" {
-				fmt.Fprintf(&sb, "(assert (= %s gs.empty))\n", t.Head)
-			}
-		}
-		if len(w.strOrder) > 1 {
-			sb.WriteString("(assert (distinct")
-			names := []string{}
-			for _, s := range w.strOrder {
-				names = append(names, w.strLits[s].Head)
-			}
-			sort.Strings(names)
-			for _, n := range names {
-				sb.WriteString(" " + n)
-			}
-			sb.WriteString("))\n")
+
 		}
 	}
 	return sb.String()
